@@ -67,7 +67,7 @@ func abs(p string) string {
 // error if the operation must not be performed.
 func begin(op, path string, mutating bool) (*Disk, int, error) {
 	d := disk.Load()
-	if d == nil {
+	if d == nil || simrt.Stray() {
 		return nil, -1, nil
 	}
 	if d.Yield {
